@@ -177,4 +177,10 @@ class CompactFilter:
                     f"can't read property '{key}'", token=None
                 ) from err
 
-        return [itm for itm in left if itm is not None]
+        # Undefined variables and the `map` filter's placeholder for a missing
+        # property are nil too.
+        return [
+            itm
+            for itm in left
+            if not (itm is None or is_undefined(itm) or itm == None)  # noqa: E711
+        ]
